@@ -341,6 +341,12 @@ func classifyRequest(req *http.Request) (clientProtocolHandler, url.Values) {
 		// also use *any* content-type.
 		fallthrough
 	default:
+		if values == nil {
+			// Parse the query string now: the request's URL is rewritten
+			// for the backend before the message (and its query parameters)
+			// is decoded.
+			values = req.URL.Query()
+		}
 		return restClientProtocol{}, values
 	}
 }
